@@ -24,8 +24,8 @@ recognizer tests and recognizer/src/{canvas,plane,recognizer}.rs:
   right edge ends on the top edge of the table (`┴`, `┼` over a column separator, `┤` at the right
   end) but not on the `╥` of a double line and not beyond the table.
 * Cell text may be padded freely and broken over several lines; lines are trimmed by the scanner,
-  so any common indentation is allowed; text before the first line starting with `┌` and after
-  the line ending with `┘` is ignored.
+  so any common indentation, blanks after the right edge and CRLF line ends are allowed; text
+  before the first line starting with `┌` and after the line ending with `┘` is ignored.
 
 The abstract table (what is drawn and what must be recognised) is a dict:
   {"marker": "U|A|P|F|R|O|C|C+|C<|C>|C#", "name": tokens|None, "label": tokens|None,
@@ -202,6 +202,8 @@ DEFAULT_STYLE = {
     "indent_max": 4,
     "preamble_p": 0.15,
     "trailer_p": 0.15,
+    "trailing_blanks_p": 0.05,  # blanks after the right edge of the lines
+    "crlf_p": 0.05,  # Windows line endings
 }
 
 
@@ -391,7 +393,12 @@ def render(layout, rng, style=None, name_tokens=None):
         "width": width,
         "height": len(out_lines),
     }
-    return "\n".join([""] + pre + out_lines + post + [""])
+    all_lines = [""] + pre + out_lines + post + [""]
+    if rng.random() < st["trailing_blanks_p"]:
+        all_lines = [x + " " * rng.randint(0, 3) for x in all_lines]
+    eol = "\r\n" if rng.random() < st["crlf_p"] else "\n"
+    layout.info["crlf"] = eol != "\n"
+    return eol.join(all_lines)
 
 
 def draw(t, orientation, rng, style=None, merge_p=0.5):
@@ -529,13 +536,18 @@ def random_entry(kind, pool, rng):
     if k < 0.22:
         return ["-"], ("any",)
     if kind == "number":
-        a = rng.choice(pool)
+        # dmntk's FEEL grammar rejects negative endpoints in comparisons and ranges (`< -5`, `[-1..2]`), in text and
+        # XML alike; such entries would only yield undecided comparisons, so negative values appear in lists only
+        nonneg = [v for v in pool if v >= 0]
+        if not nonneg:
+            k = 0.8
+        a = rng.choice(nonneg or pool)
         if k < 0.5:
             op = rng.choice(["<", "<=", ">", ">="])
             sep = rng.choice(["", " "])
             return [op + sep + _num_text(a)] if not sep else [op, _num_text(a)], ("cmp", op, a)
         if k < 0.7:
-            b = rng.choice(pool)
+            b = rng.choice(nonneg)
             lo, hi = min(a, b), max(a, b)
             lc, hc = rng.random() < 0.6, rng.random() < 0.6
             return ["%s%s..%s%s" % ("[" if lc else "(", _num_text(lo), _num_text(hi), "]" if hc else ")")], ("rng", lo, lc, hi, hc)
@@ -586,7 +598,10 @@ def random_table(rng, marker=None, shape=None):
     has_values = shape["values"] if "values" in shape else rng.random() < 0.5
     has_label = shape["label"] if "label" in shape else rng.random() < 0.5
     numeric_out = marker in ("C+", "C<", "C>")
-    in_names = rng.sample(INPUT_NAMES, ni)
+    in_names = [list(x) for x in rng.sample(INPUT_NAMES, ni)]
+    if rng.random() < shape.get("marker_like_p", 0.03):
+        # a valid FEEL name that reads like a hit policy marker
+        in_names[rng.randrange(ni)] = [rng.choice(["A", "C", "F", "O", "P", "R", "U"])]
     inputs = []
     pools = []
     for name in in_names:
@@ -599,7 +614,7 @@ def random_table(rng, marker=None, shape=None):
         values = None
         if has_values:
             if kind == "number" and rng.random() < 0.5:
-                lo, hi = min(pool) - rng.randint(0, 3), max(pool) + rng.randint(0, 3)
+                lo, hi = max(Decimal(0), min(pool) - rng.randint(0, 3)), max(Decimal(0), max(pool)) + rng.randint(0, 3)
                 values = ["[%s..%s]" % (_num_text(lo), _num_text(hi))]
             else:
                 allowed = [v for v in pool if rng.random() < 0.85] or [pool[0]]
